@@ -86,6 +86,37 @@ def cexEquiv (htMode : Bool) (F G : Formula) (seed tries : Nat) : Sexp :=
           (some (witness T none ρ "classical" a b), r') else (none, r')
       | _, _ => (none, r')
 
+/-- C19: the problems `out` the implementation made of `p` (either decomposition) against the claim of `p`:
+    some problem of `out` is refuted iff every axiom of `p` is true and some conjecture of `p` is false
+    (`C19.independent_refutes` / `sequential_refutes`). -/
+def cexDecompose (p : Problem) (out : List Problem) (seed tries : Nat) : Sexp :=
+  let fs := (p.formulas ++ out.flatMap (·.formulas)).map (·.formula)
+  if tooCostly fs then .list [.atom "skipped"] else
+  searchLoop tries ⟨seed.toUInt64⟩ fun r =>
+    let (_, T, ρ, r') := randomWorld fs r
+    let refuted := fun (J : FinInterp) (q : Problem) => do
+      let ax ← q.formulas.foldl (fun acc a => do
+        let b ← acc
+        if a.role != .axiom then some b else
+        let v ← evalSat J a.formula ρ
+        some (b && v)) (some true)
+      let cj ← q.formulas.foldl (fun acc a => do
+        let b ← acc
+        if a.role != .conjecture then some b else
+        let v ← evalSat J a.formula ρ
+        some (b || !v)) (some false)
+      some (ax && cj)
+    let lhs := fun (J : FinInterp) => out.foldl (fun acc q => do
+      let b ← acc
+      let v ← refuted J q
+      some (b || v)) (some false)
+    match lhs T, refuted T p with
+    | some a, some b =>
+      if a != b && lhs (T.widen 5) == some a && refuted (T.widen 5) p == some b then
+        (some (witness T none ρ "some emitted problem refuted  vs  axioms true and a conjecture false in the undecomposed problem" a b), r')
+      else (none, r')
+    | _, _ => (none, r')
+
 /-- gamma: `ht (H,T) here F` vs `sat (merge H T) G` where G is the implementation's gamma(F). -/
 def cexGamma (F G : Formula) (seed tries : Nat) : Sexp :=
   if tooCostly [F, G] then .list [.atom "skipped"] else
